@@ -15,6 +15,8 @@ val app : 'a1 list -> 'a1 list -> 'a1 list
 
 val add : nat -> nat -> nat
 
+val sub : nat -> nat -> nat
+
 val eqb : bool -> bool -> bool
 
 module Nat :
@@ -39,6 +41,8 @@ val fold_right : ('a2 -> 'a1 -> 'a1) -> 'a1 -> 'a2 list -> 'a1
 val existsb : ('a1 -> bool) -> 'a1 list -> bool
 
 val filter : ('a1 -> bool) -> 'a1 list -> 'a1 list
+
+val skipn : nat -> 'a1 list -> 'a1 list
 
 type site = nat
 
@@ -301,3 +305,19 @@ val excludes_of_flag : str -> str list
 val is_pkg_in_scope : str list -> str list -> str -> bool
 
 val in_scope_flags : str -> str -> str -> bool
+
+type seg = nat
+
+type rseg =
+| Up
+| Seg of seg
+
+val rel : seg list -> seg list -> rseg list
+
+type path =
+| Abs of seg list
+| Relp of rseg list
+
+val rel_to_cwd : seg list -> path -> path
+
+val portion_after_sep : 'a1 list -> nat -> 'a1 list
